@@ -1,6 +1,6 @@
 CONSTANTS Families = {"one", "rsv", "two", "three"}  Bug = ""  Emit = TRUE
-  TwoFlags = {0, 1, 2, 3, 4, 5, 6, 7}
-  TwoSizes = {1, 4, 5}
+  TwoFlags = {0, 2, 3, 6, 7}
+  TwoSizes = {1, 5}
   ThreeSizes = {1, 4, 5}
 CONSTANT OneRsv <- MCOneRsvFull
 INIT Init
